@@ -1,11 +1,11 @@
 SPECIFICATION ISpec
 CONSTANTS
   P = 2
-  C = 2
-  L = 0
-  MaxProd = 3
+  C = 1
+  L = 2
+  MaxProd = 0
   NB = 0
-  MaxTog = 0
+  MaxTog = 3
   MaxFail = 0
   Variant = "ok"
   Mode = "free"
